@@ -1,0 +1,62 @@
+//go:build verif
+// +build verif
+
+package onet
+
+import "time"
+
+// VerifStore drives a tree store on its own (verification harness only).
+type VerifStore struct{ ts *treeStorage }
+
+// VerifNewStore creates a tree store keeping removed trees for d.
+func VerifNewStore(d time.Duration) *VerifStore { return &VerifStore{newTreeStorage(d)} }
+
+// Register calls treeStorage.Register.
+func (v *VerifStore) Register(id TreeID) { v.ts.Register(id) }
+
+// Unregister calls treeStorage.Unregister.
+func (v *VerifStore) Unregister(id TreeID) { v.ts.Unregister(id) }
+
+// IsRegistered calls treeStorage.IsRegistered.
+func (v *VerifStore) IsRegistered(id TreeID) bool { return v.ts.IsRegistered(id) }
+
+// IsRequested calls treeStorage.IsRequested.
+func (v *VerifStore) IsRequested(id TreeID) bool { return v.ts.IsRequested(id) }
+
+// Get calls treeStorage.Get.
+func (v *VerifStore) Get(id TreeID) *Tree { return v.ts.Get(id) }
+
+// GetAndRefresh calls treeStorage.getAndRefresh.
+func (v *VerifStore) GetAndRefresh(id TreeID) *Tree { return v.ts.getAndRefresh(id) }
+
+// Set calls treeStorage.Set.
+func (v *VerifStore) Set(t *Tree) { v.ts.Set(t) }
+
+// Remove calls treeStorage.Remove.
+func (v *VerifStore) Remove(id TreeID) { v.ts.Remove(id) }
+
+// GetRoster calls treeStorage.GetRoster.
+func (v *VerifStore) GetRoster(id RosterID) *Roster { return v.ts.GetRoster(id) }
+
+// Close calls treeStorage.Close.
+func (v *VerifStore) Close() { v.ts.Close() }
+
+// State returns "absent", "requested" or "present" for a tree id, followed
+// by "+armed" when a removal of the tree is scheduled.
+func (v *VerifStore) State(id TreeID) string {
+	ts := v.ts
+	ts.Lock()
+	defer ts.Unlock()
+	s := "absent"
+	if t, ok := ts.trees[id]; ok {
+		if t == nil {
+			s = "requested"
+		} else {
+			s = "present"
+		}
+	}
+	if _, ok := ts.cancellations[id]; ok {
+		s += "+armed"
+	}
+	return s
+}
